@@ -7,18 +7,36 @@ from ..engine.pyindex import walk_no_nested
 
 ID = 'C44'
 TECHNIQUE = ('abstract interpretation (interval x known-bits-with-provenance) of the line-table encoder against the frozen CPython location-table format; path-sensitive base-line rule; '
-             'writer/reader agreement of the emitted save/restore assignments of the error-position variables + path-sensitive call-site pairing of the saving and restoring helpers')
+             'writer/reader agreement of the emitted save/restore assignments of the error-position variables + path-sensitive call-site pairing of the saving and restoring helpers; '
+             'role agreement (file index / source line / C line) along emission site -> position macro -> position variables -> C helper parameters -> CPython constructors, with '
+             'roles derived from use at every hop; finite-domain evaluation of GlobalState.lookup_filename by the checker-owned evaluator; order-domain (ascending/descending) '
+             'analysis of the position list; def-use of the first-line expression')
 DECIDES = ('for LineTable.py under the input assumptions (columns >= 0, start >= last, end >= start): '
            'BASE: the line number handed on as the base of the next entry equals the START line of the entry just written on every path '
            "(CPython's decoder adds line deltas to start lines); "
            'NUM: every first byte of an entry has bit 7 set and a code field in the range of its form, every other byte is < 128, var-int chunks carry the continuation bit on all but the last chunk, '
            'and the bit layout of each form (short / one-line / long) is the one CPython decodes (sa/reference.py LOCATION_TABLE).  '
+           'FIRST: the driver loop hands the encoder a variable as base line, assigns the result back to it and starts it from its own first-line parameter; CodeObjectNode builds the table '
+           'with the expression it emits as co_firstlineno (the `first_line` field of the descriptor, field order read from the emitted typedef), that expression is pos[LINE] (LINE = the '
+           'component the Plex scanner puts its line counter in), and the table string is converted with a codec that maps chr(n) to byte n.  '
+           'ORDER: the function that fills node_positions sorts with the line component as primary key and stores an ASCENDING list (every reverse()/[::-1]/insert(0) accounted for); '
+           'node_positions_to_offset numbers a list in the same order.  '
            'POSPAIR: for the variables that put_add_traceback hands to __Pyx_AddTraceback (line, C line, file name): in every class that parks them in other storage '
            '(TryFinallyStatNode.put_error_catcher/put_error_uncatcher, ParallelStatNode.fetch/restore_parallel_exception) the emitted save assignments and restore assignments are '
            'mirror images (same variable <-> same slot, line and file name included); in every method calling the saving helper the restoring helper (directly or through one '
-           'wrapper method) receives the same local storage for each slot parameter - not a conditional, not None - and no jump to an error label happens between save and restore.')
-NOT_DECIDED = ('which positions the compiler records (mark_pos), and traceback construction in Exceptions.c; whether the guards inside the saving and the restoring helper agree '
-               '(only the call-site arguments and the emitted assignments are compared); position handling of generators/coroutines across yields.')
+           'wrapper method) receives the same local storage for each slot parameter - not a conditional, not None - and no jump to an error label happens between save and restore.  '
+           'ERRPOS: both variants of __PYX_MARK_ERR_POS assign exactly one of the variables the traceback reads from module_file_table[param] (file) and one from a bare parameter (line), '
+           'the C line from __LINE__, no variable changes role between the variants, __PYX_ERR forwards its parameters; every emission of the two macros (error_goto, set_error_info) puts '
+           'lookup_filename(pos[FILE]) in the file parameter and pos[LINE] in the line parameter; in every #if variant of __Pyx_AddTraceback no parameter is used in two roles '
+           '(C line: handed to __Pyx_CLineForTraceback; source line: PyCode_NewEmpty.firstlineno / __Pyx_PyFrame_SetLineNumber / "co_firstlineno"; file / function name: PyCode_NewEmpty '
+           'parameters by header name, Py_CompileString), helper functions followed; put_add_traceback hands each position variable to a parameter of its own role.  '
+           'FILETAB: GlobalState.lookup_filename returns, for every sequence of new/repeated descriptors up to length 4, the position of the file in filename_list, and the file table is '
+           'emitted from filename_list in list order.  '
+           'TBKEY: every variant of __Pyx_AddTraceback searches and fills the code-object cache under the same key expression.')
+NOT_DECIDED = ('which positions the compiler records (mark_pos) and whether a node passes its own pos to error_goto; whether the guards inside the saving and the restoring helper agree '
+               '(only the call-site arguments and the emitted assignments are compared); position handling of generators/coroutines across yields; the binary search of the '
+               'code-object cache (__pyx_bisect_code_objects: a wrong search costs cache hits, a hit is validated against the key); completeness of the cache key with respect to '
+               'function name and file (rule C44-TBKEY/key-complete is written and reports the unmodified tree: FINDING_2, pending); C-line handling inside __Pyx_CLineForTraceback.')
 ASSUMPTIONS = ['positions are start-sorted, columns are non-negative, end line >= start line (the documented input contract of build_line_table)']
 
 
@@ -38,23 +56,20 @@ MUTATIONS = [
     ('Cython/Compiler/Nodes.py', '`if needs_success_cleanup:` -> `if not needs_success_cleanup: pass / else:`, temps released after the goto', None),
     ('Cython/Compiler/Nodes.py', 'uncatcher call + temp release + trace call extracted into a helper method (arguments handed through)', None),
 ]
+# Fourth round: 32 breaking edits and 18 behaviour-preserving rewrites are kept as replayable patches under /verif/mutants/C44/<name>/ (meta.json says what each one
+# breaks and which rule reports it); the thorough tier re-applies the reported ones on every run.  Mechanisms covered there: line-table driver, code object creation
+# (first line, codec), position list order / offsets, error_goto / set_error_info argument roles, the position macros, __Pyx_AddTraceback parameter roles (both API variants),
+# the code-object cache key, the file table index.
 
 
 def find_encoder(ctx):
+    """(functions of LineTable.py, the per-entry encoder, index of its base-line parameter).  The encoder is the function the driver loop hands each
+    position to; its base-line parameter is the one subtracted from the start line (whether the driver feeds the result back is decided by C44-FIRST)."""
+    from ..rules import sC44
     tree = ctx.parse('Cython/Compiler/LineTable.py')
     fns = {n.name: n for n in tree.body if isinstance(n, ast.FunctionDef)}
-    if 'build_line_table' not in fns:
-        raise AnalysisError('LineTable.build_line_table vanished')
-    # the per-entry encoder is the function whose result build_line_table feeds back as its own argument
-    driver = fns['build_line_table']
-    enc = None
-    for n in ast.walk(driver):
-        if isinstance(n, ast.Assign) and isinstance(n.value, ast.Call) and isinstance(n.value.func, ast.Name) and \
-                isinstance(n.targets[0], ast.Name) and any(isinstance(a, ast.Name) and a.id == n.targets[0].id for a in n.value.args):
-            enc = (n.value.func.id, n.targets[0].id, [a.id if isinstance(a, ast.Name) else None for a in n.value.args].index(n.targets[0].id))
-    if enc is None or enc[0] not in fns:
-        raise AnalysisError('cannot find the per-entry encoder called from build_line_table')
-    return fns, fns[enc[0]], enc[2]
+    rel, driver, loop, call, enc, base_idx = sC44._driver_facts(ctx)
+    return fns, enc, base_idx
 
 
 def rule_base(ctx):
@@ -108,10 +123,57 @@ def rule_base(ctx):
     return r
 
 
+class _ChrConcat(ast.NodeTransformer):
+    """`chr(a) + chr(b) + "x"`  ->  f"{a:c}{b:c}x": the same string; the byte model of the NUM rules (engine/pyabs.bytes_of) reads chr(), f-strings with :c and
+    literals, but not their concatenation with `+`"""
+
+    @staticmethod
+    def parts(e):
+        if isinstance(e, ast.BinOp) and isinstance(e.op, ast.Add):
+            a, b = _ChrConcat.parts(e.left), _ChrConcat.parts(e.right)
+            return None if a is None or b is None else a + b
+        if isinstance(e, ast.Call) and isinstance(e.func, ast.Name) and e.func.id == 'chr' and len(e.args) == 1 and not e.keywords:
+            return [ast.FormattedValue(value=e.args[0], conversion=-1, format_spec=ast.JoinedStr(values=[ast.Constant(value='c')]))]
+        if isinstance(e, ast.Constant) and isinstance(e.value, str):
+            return [e]
+        if isinstance(e, ast.JoinedStr):
+            return list(e.values)
+        return None
+
+    def visit_BinOp(self, node):
+        self.generic_visit(node)
+        if isinstance(node.op, ast.Add):
+            ps = self.parts(node)
+            if ps is not None and any(isinstance(p, ast.FormattedValue) for p in ps):
+                return ast.fix_missing_locations(ast.copy_location(ast.JoinedStr(values=ps), node))
+        return node
+
+
+class _NormCtx:
+    """the analysis context with LineTable.py normalised by _ChrConcat (everything else is handed through)"""
+
+    def __init__(self, ctx):
+        self._ctx = ctx
+        self._tree = None
+
+    def parse(self, rel):
+        if rel.endswith('Compiler/LineTable.py'):
+            if self._tree is None:
+                import copy
+                self._tree = ast.fix_missing_locations(_ChrConcat().visit(copy.deepcopy(self._ctx.parse(rel))))
+            return self._tree
+        return self._ctx.parse(rel)
+
+    def __getattr__(self, name):
+        return getattr(self._ctx, name)
+
+
 def run(ctx):
     rules = [rule_base(ctx)]
     from ..rules import num
-    rules += num.linetable_rules(ctx)
+    rules += num.linetable_rules(_NormCtx(ctx))
     from ..rules import sC44
     rules.append(sC44.rule_pospair(ctx))
+    rules += [sC44.rule_errpos(ctx), sC44.rule_filetab(ctx), sC44.rule_tbkey(ctx), sC44.rule_first(ctx), sC44.rule_order(ctx)]
+    # sC44.rule_tbkey_complete(ctx)   # pending finding (FINDING_2: the traceback code-object cache is keyed by line number only)
     return rules
